@@ -37,7 +37,7 @@ def run_faults(chk, n, per_prog):
         r = core.rng(PROP, "faults", i)
         g = tplgen.Gen(core.rng(PROP, "programs", i), PROFILE)
         p = g.program()
-        ref = tplgen.run_real(p, limit=3.0)
+        ref = tplgen.run_real(p, limit=20.0)
         chk.count("success", 1, validated=1)
         (rep0, _), = rc.batch([p], with_spec=False)
         dm = rc.cmp_model(ref, rep0)
@@ -63,7 +63,7 @@ def run_faults(chk, n, per_prog):
         for fp, (rep, _) in zip(faulty, reps):
             j, c = fp["raise"]
             tplgen.clear_census()
-            real = tplgen.run_real(fp, limit=3.0)
+            real = tplgen.run_real(fp, limit=20.0)
             chk.count("faults", 1, validated=1)
             chk.branch(["fault_at:" + ref["events"][j][0], "fault_class:%d" % c])
             chk.nontrivial((i, j, c))
@@ -87,7 +87,7 @@ def run_faults(chk, n, per_prog):
                 problems.append("caller's Context.dicts changed by the failed render")
             rc_left = real.get("rc_before") != real.get("rc_after")
             # every later render behaves as if the failed one had never happened (registries NOT cleared)
-            follow = tplgen.run_real(p, census_clear=False, reset_ids=False, limit=3.0)
+            follow = tplgen.run_real(p, census_clear=False, reset_ids=False, limit=20.0)
             fo = follow["err"] or tplgen.canon_real(follow["out"], follow["hash2name"])
             if fo != ref_out:
                 problems.append("follow-up render differs from the reference: %r" % (fo[:200],))
@@ -127,7 +127,7 @@ def run_memory(chk, n):
     for i in range(n):
         g = tplgen.Gen(core.rng(PROP, "memory", i), dict(PROFILE, w_provide=1))
         p = g.program()
-        ref = tplgen.run_real(p, limit=3.0)
+        ref = tplgen.run_real(p, limit=20.0)
         if ref["err"] is not None:
             continue
         tplgen.set_mode(p["isolated"])
